@@ -246,7 +246,7 @@ def evaluate__mod_operator(self: XPathToken, context: ta.ContextType = None) \
     except OverflowError as err:
         raise self.error('FOAR0002', err) from None
     except (ZeroDivisionError, decimal.InvalidOperation):
-        raise self.error('FOAR0001') from None
+        raise self.error('FOAR0001' if op2 == 0 else 'FOAR0002') from None
 
 
 # Resolve the intrinsic ambiguity of some infix operators
